@@ -244,4 +244,15 @@ theorem outer_rec {motive : Nat → Bool → W → Run W α → Prop}
           exact restart iter dd w h1 _ hr (by omega)
             (ih (iterMax - ((coreRun c iterMax iter h1 dd w).iter + 1)) (by omega) _ h3 _ _ rfl)
 
+/-- list helper: an element that is not in the suffix `t` of `pre ++ t` is followed by all of `t` -/
+theorem split_before_tail {β : Type} (pre t a b : List β) (x : β) (hx : x ∉ t)
+    (h : pre ++ t = a ++ x :: b) : ∃ b₁, b = b₁ ++ t := by
+  rcases List.append_eq_append_iff.mp h with ⟨a', rfl, h2⟩ | ⟨c', rfl, h2⟩
+  · exact absurd (by rw [h2]; simp) hx
+  · cases c' with
+    | nil => simp at h2; exact absurd (by rw [← h2]; simp) hx
+    | cons y c'' =>
+      simp only [List.cons_append, List.cons.injEq] at h2
+      exact ⟨c'', h2.2⟩
+
 end TfelVerif.C08
